@@ -5,7 +5,11 @@ from ..summary import Item, items, is_ok, bv, name_eq
 from ..values import SymStr
 
 ID = 'C04'
-ENGINE_B = {'template': 't_vft', 'kinds': ['dispatch_', 'layout_'], 'max_quick': 12, 'max_thorough': 64}
+# fixed witnesses: private virtual functions behind gap placeholders, explicit table size, pointer arguments, return values
+ENGINE_B = {'template': 't_vft', 'kinds': ['dispatch_', 'layout_'], 'max_quick': 12, 'max_thorough': 64,
+            'fixed': [[8, 2, 0, 0, 0, 0, 1, 0, 0, 0, 0, 0, 0, 1, 1, 3, 1, 0, 0, 0, 0, 0, 0, 0],
+                      [8, 3, 1, 7, 1, 1, 2, 1, 0, 0, 0, 1, 0, 0, 0, 0, 1, 1, 2, 0, 0, 0, 0, 1, 1, 5, 2, 0, 0, 0, 0, 1, 0, 0],
+                      [8, 2, 0, 0, 1, 2, 1, 1, 2, 0, 0, 1, 0, 0, 0, 0, 2, 1, 0, 0, 0, 0, 0, 0]]}
 FN = ['g0', 'g1', 'g2', 'g3']
 EXPLANATION = ('Template t_vft (type T with a vftable block of m functions, each with an optional symbolic #[index], and an optional '
                'symbolic vftable #[size]) is executed symbolically through convert_grammar_functions_to_semantic_functions, '
